@@ -301,6 +301,13 @@ KERNELS = frozenset([
 EXTERNAL_PREFIXES = ("mantra_dex_std::uints::",)
 
 
+def _int_width(ty):
+    m = re.match(r"^[ui](8|16|32|64|128)$", ty or "")
+    if m:
+        return int(m.group(1))
+    return 64 if ty in ("usize", "isize") else None
+
+
 class Policy:
     """Default policy: no extra pruning, nothing opaque."""
     opaque = frozenset()
@@ -591,7 +598,14 @@ class Interp:
         if k == "ref":
             return self.ref_place(store, frame, mkplace(rv["place"]))
         if k == "cast":
-            return self.operand(store, frame, rv["op"])
+            v = self.operand(store, frame, rv["op"])
+            if rv.get("ck") == "IntToInt" and rv["op"].get("k") in ("copy", "move") and not rv["op"]["place"]["p"]:
+                # a narrowing `as` cast truncates: operator class 'wrap'
+                src = frame.body.locals[rv["op"]["place"]["l"]] if rv["op"]["place"]["l"] < len(frame.body.locals) else ""
+                ws, wt = _int_width(src), _int_width(rv.get("ty", ""))
+                if ws and wt and wt < ws:
+                    return self.derive(store, [v], "wrap")
+            return v
         if k == "bin":
             a = self.operand(store, frame, rv["a"])
             b = self.operand(store, frame, rv["b"])
